@@ -1,9 +1,16 @@
 package harness
 
 import (
+	"crypto/ecdsa"
 	"crypto/sha256"
+	"math/big"
+	"time"
 
+	"github.com/ethereum/go-ethereum/common"
+	ethtypes "github.com/ethereum/go-ethereum/core/types"
+	ethcrypto "github.com/ethereum/go-ethereum/crypto"
 	"github.com/meshplus/bitxhub-kit/types"
+	ethkittypes "github.com/meshplus/eth-kit/types"
 	"github.com/meshplus/bitxhub-model/constant"
 	"github.com/meshplus/bitxhub-model/pb"
 )
@@ -120,4 +127,46 @@ func (r *Replica) Query(contract *types.Address, method string, args ...*pb.Arg)
 		return &pb.Receipt{Status: pb.Receipt_FAILED, Ret: []byte("view executor returned no receipt")}
 	}
 	return rs[0]
+}
+
+// ---- Ethereum-format transactions (signed legacy EIP-155, executed by the EVM)
+
+// EthKey is a deterministic secp256k1 key for an Ethereum-format sender.
+func EthKey(name string) *ecdsa.PrivateKey {
+	h := sha256.Sum256([]byte("verif-eth-key:" + name))
+	k, err := ethcrypto.ToECDSA(h[:])
+	if err != nil {
+		panic(err)
+	}
+	return k
+}
+
+func EthAddr(k *ecdsa.PrivateKey) *types.Address {
+	return types.NewAddress(ethcrypto.PubkeyToAddress(k.PublicKey).Bytes())
+}
+
+// EthTx builds and signs an Ethereum-format transaction for the given chain id. to == nil deploys data.
+func EthTx(k *ecdsa.PrivateKey, chainID uint64, nonce, gas uint64, gasPrice, value *big.Int, to *types.Address, data []byte, ts int64) *ethkittypes.EthTransaction {
+	var toA *common.Address
+	if to != nil {
+		a := common.BytesToAddress(to.Bytes())
+		toA = &a
+	}
+	signed, err := ethtypes.SignTx(ethtypes.NewTx(&ethtypes.LegacyTx{Nonce: nonce, GasPrice: gasPrice, Gas: gas, To: toA, Value: value, Data: data}),
+		ethtypes.NewEIP155Signer(new(big.Int).SetUint64(chainID)), k)
+	if err != nil {
+		panic(err)
+	}
+	raw, err := signed.MarshalBinary()
+	if err != nil {
+		panic(err)
+	}
+	tx := &ethkittypes.EthTransaction{}
+	if err := tx.Unmarshal(raw); err != nil {
+		panic(err)
+	}
+	// as the API does when it accepts a raw transaction: arrival time and hash travel with it
+	tx.Time = time.Unix(0, ts)
+	tx.GetHash()
+	return tx
 }
